@@ -39,6 +39,14 @@ def scenarios(quick):
     out.append({"name": "churn", "steps": ["create:1"] + churn + ["create:1", "delete"]})
     out.append({"name": "churn-burst", "steps": ["create:1", "settle", "burst"] + churn + ["create:1", "delete"]})
     out.append({"name": "churn-catalogue", "steps": sum([[c, "create:1"] if i % 5 == 0 else [c] for i, c in enumerate(churn)], []) + ["delete"]})
+    # a partition whose raft group has no leader (its other replica is not there): the peer is removed, the
+    # dataset deleted, further catalogue changes follow - every wait on that group has to be abandonable
+    for steps in (["conf+2", "create:2", "settle", "conf-2", "delete", "create:1"],
+                  ["conf+2", "create:2", "settle", "conf-2", "settle", "delete", "create:1", "delete"],
+                  ["conf+2", "conf+3", "create:3", "settle", "conf-3", "conf-2", "delete", "create:1"],
+                  ["conf+2", "create:2", "create:2", "settle", "conf-2", "delete", "delete", "conf+3", "create:2"]):
+        out.append({"name": "leaderless", "steps": steps})
+        out.append({"name": "leaderless-burst", "steps": ["burst"] + [x for x in steps if x != "settle"]})
     # entries proposed by other nodes: this node is dropped from / added to replica sets of partitions it
     # does or does not host (it left and re-joined; partition leaders propose removals for every partition)
     for steps in (["conf+2", "fcreate:2", "pnode-1", "pnode+1", "create:1", "delete"],
@@ -125,10 +133,24 @@ def run(ctx):
     trace2, res = clusfam.run_scenarios(ctx, 1)
     v2, n2 = vlib.validate_trace(ctx, "ClusterViewTrace", "ClusterViewTrace.cfg", trace2, lambda l: l.startswith('{"ev":"scenario"'), chunk_events=100000)
     lines2 = open(trace2).read().splitlines()
+    seen = set()
     for v in v2:
+        e = json.loads(lines2[v[0]])
         if v[1] in ("RestartFailed", "NodeDied"):
-            e = json.loads(lines2[v[0]])
             ctx.finding("%s@real-server" % v[1], "a real server did not come back / died: %s" % json.dumps(e)[:500], {"event": e})
+            continue
+        sc = ""
+        for x in reversed(lines2[:v[0] + 1]):
+            if x.startswith('{"ev":"scenario"'):
+                sc = json.loads(x)["name"]
+                break
+        # a member died and was removed, datasets were deleted and created: a node that no longer answers List, or
+        # refuses / never sees the catalogue changes, has a wedged control plane
+        if sc == "dead-leave" and v[1] in ("ViewError", "DeleteFailed", "CreateFailed", "CatalogueDiffers", "CatalogueLostOnRestart", "DeletedStillListed"):
+            sig = "Wedged@dead-leave:%s" % v[1]
+            if sig not in seen:
+                seen.add(sig)
+                ctx.finding(sig, "%s: after a dead member was removed a node stopped applying / serving the catalogue: %s" % (sig, json.dumps(e)[:400]), {"event": e})
     nrestarts = sum(1 for x in lines2 if '"ev":"started"' in x)
     ctx.log("%d real-server (re)starts observed" % nrestarts)
     st = {}
